@@ -29,15 +29,17 @@ run_one() { # name patch outfile
   echo "== $name"; cat "$out"
   rm -rf $scratch
 }
+only="${ONLY:-.}"   # ONLY=<regex> restricts the batch to matching names
 for d in /verif/seeded/*/; do
   n=$(basename $d)
+  echo "$n" | grep -Eq "$only" || continue
   run_one "$n" "$d/patch.diff" "$d/detected.txt"
 done
 for f in /verif/mutants-own/*.diff; do
-  n=$(basename $f .diff); mkdir -p /verif/mutants-own/detected; run_one "$n" "$f" "/verif/mutants-own/detected/$n.txt"
+  n=$(basename $f .diff); echo "$n" | grep -Eq "$only" || continue; mkdir -p /verif/mutants-own/detected; run_one "$n" "$f" "/verif/mutants-own/detected/$n.txt"
 done
 for d in /verif/controls/*/; do
-  n=$(basename $d); run_one "$n" "$d/patch.diff" "$d/detected.txt"
+  n=$(basename $d); echo "$n" | grep -Eq "$only" || continue; run_one "$n" "$d/patch.diff" "$d/detected.txt"
 done
 if [ -n "$extra" ]; then
   mkdir -p /tmp/extra_detect
